@@ -51,6 +51,18 @@ def parseEvents (s : String) : Option (List Event) :=
   let toks := splitList s
   if toks.isEmpty then none else toks.mapM parseEvent
 
+def parseItem (tok : String) : Option Item :=
+  match tok.splitOn "." with
+  | ["t", x] =>
+    match x.toNat? with
+    | some n => if toString n == x && n < 2 ^ 40 && n % 1000 == 0 then some (.adv n) else none
+    | none => none
+  | _ => (parseEvent tok).map .ev
+
+def parseItems (s : String) : Option (List Item) :=
+  let toks := splitList s
+  if toks.isEmpty then none else toks.mapM parseItem
+
 def showBools (bs : List Bool) : String := showList (bs.map fun b => if b then 1 else 0)
 
 /-- one particular schedule of the concurrent case (every goroutine runs to completion, one after
@@ -64,8 +76,8 @@ def concModel (g : Nat) (evs : List Event) : List Nat :=
 def model (line : String) : String :=
   match splitWs line with
   | ["seq", es] =>
-    match parseEvents es with
-    | some evs => showBools (C37.model span37 0 evs)
+    match parseItems es with
+    | some items => showBools (runItems span37 0 Dedup.empty items)
     | none => "bad-op"
   | ["conc", g, r, es] =>
     match g.toNat?, r.toNat?, parseEvents es with
@@ -86,11 +98,12 @@ def parseBools (s : String) : Option (List Bool) :=
 def monitor (op obs : String) : String :=
   match splitWs op with
   | ["seq", es] =>
-    match parseEvents es with
+    match parseItems es with
     | none => if obs == "bad-op" then "ok" else "FAIL bad-op-accepted"
-    | some evs =>
+    | some items =>
       match parseBools obs with
-      | some bs => if holdsSeq evs bs then "ok" else "FAIL not-exactly-first-delivery-handled"
+      | some bs =>
+        if holdsItems span37 items bs then "ok" else "FAIL not-handled-exactly-once-per-period"
       | none => "FAIL unparsable-observation"
   | ["conc", _, _, es] =>
     match parseEvents es with
